@@ -167,7 +167,15 @@ fn build_nests(case: &Case, models: &[CClass]) -> Vec<RNest> {
 	let mut out: Vec<RNest> = Vec::new();
 	let mut anon = 0;
 	for p in &case.nests {
-		let class = if p.class < models.len() { models[p.class].name.clone() } else if p.class == POOL.len() { NOT_IN_JAR.to_string() } else { continue };
+		// a listed class that is not in the jar: preferably one the jar's classes refer to (POOL names beyond the
+		// jar's classes are referenced from generated code), so that "not present => nothing renamed" is observable
+		let class = if p.class < models.len() {
+			models[p.class].name.clone()
+		} else if p.class == POOL.len() {
+			if models.len() < POOL.len() && p.access % 4 != 0 { POOL[models.len()].to_string() } else { NOT_IN_JAR.to_string() }
+		} else {
+			continue;
+		};
 		if out.iter().any(|n| n.class == class) {
 			continue;
 		}
@@ -211,7 +219,13 @@ fn to_duke_nests(nests: &[RNest], via_text: bool) -> Result<Nests<Ns>, String> {
 		let mut text = String::new();
 		for n in nests {
 			let (mn, md) = n.method.clone().unwrap_or_default();
-			text.push_str(&format!("{}\t{}\t{}\t{}\t{}\t{}\n", n.class, n.encl, mn, md, n.inner, n.access));
+			// the three documented spellings of the access flags
+			let access = match n.access % 3 {
+				0 => n.access.to_string(),
+				1 => format!("0x{:x}", n.access),
+				_ => format!("0b{:b}", n.access),
+			};
+			text.push_str(&format!("{}\t{}\t{}\t{}\t{}\t{}\n", n.class, n.encl, mn, md, n.inner, access));
 		}
 		return Nests::<Ns>::read(&text.into_bytes()).map_err(|e| format!("Nests::read rejects a harness-written table: {e:#}"));
 	}
@@ -536,7 +550,8 @@ fn check(case: &Case, obs: &mut Obs) -> PropResult {
 	obs.label(format!("accepted_chain_depth={max_depth}"));
 	obs.label_if(rejected > 0, "rejected_nest");
 	obs.label_if(!must_create.is_empty(), "enclosing_class_created");
-	obs.label_if(rnests.iter().any(|n| n.class == NOT_IN_JAR), "nest_for_class_not_in_jar");
+	obs.label_if(rnests.iter().any(|n| !models.iter().any(|m| m.name == n.class)), "nest_for_class_not_in_jar");
+	obs.label_if(rnests.iter().any(|n| n.class != NOT_IN_JAR && !models.iter().any(|m| m.name == n.class)), "nest_for_referenced_class_not_in_jar");
 	for n in &rnests {
 		obs.label(format!("kind{}:{}", n.kind, if accepted(n, &present) { "accepted" } else { "rejected" }));
 	}
